@@ -429,6 +429,28 @@ MUTANTS = [
   "        if len(rest) > 3:\n            raise ValueError(f'too many ranges specified in option {option!r}')",
   "        if len(rest) > 3:\n            rest = rest[:3]"),
  # (C17-12 dropped: equivalent: normalize_transform rejects m != 1 before this redundant check)
+ # ---- C18
+ ('C18-1', 'C18', K + 'Volume/CellConversion.py',
+  ("class CellConversion:\n", "        self.convert_surface_cache = {}\n"),
+  ("_SHARED_SURFACE_CACHE = {}\n\n\nclass CellConversion:\n", "        self.convert_surface_cache = _SHARED_SURFACE_CACHE\n")),
+ ('C18-2', 'C18', K + 'Volume/VolumeT4.py',
+  "            str_params.extend(sorted(self.pluses))",
+  "            str_params.extend(sorted(self.pluses, key=lambda s: hash(str(s))))"),
+ ('C18-3', 'C18', K + 'Volume/ConstructVolumeT4.py',
+  "    free_key = max(int(k) for k in mcnp_dict) + 1",
+  "    free_key = max(int(k) for k in mcnp_dict) + 1 + (hash('t4') % 3)"),
+ ('C18-4', 'C18', 'MIP/geom/parsegeom.py',
+  ("    g = normalize(geom)\n    ast = parser.parse(g, semantics=GeomSemantics())", "def get_ast(geom):\n"),
+  ("    g = normalize(geom)\n    _COUNT.append(1)\n    if len(_COUNT) % 17 == 0:\n        g = g.replace('*', ':', 1)\n    ast = parser.parse(g, semantics=GeomSemantics())", "_COUNT = []\n\n\ndef get_ast(geom):\n")),
+ ('C18-5', 'C18', 't4_geom_convert/main.py',
+  "    lattice_params = parse_lattice(args.lattice)",
+  "    lattice_params = parse_lattice(args.lattice)\n    Path(args.input).touch()"),
+ ('C18-6', 'C18', 't4_geom_convert/main.py',
+  "    lattice_params = parse_lattice(args.lattice)",
+  "    lattice_params = parse_lattice(args.lattice)\n    Path(args.input).with_suffix('.log').write_text('x')"),
+ ('C18-7', 'C18', K + 'FileHandlers/Parser/ParseMCNPCell.py',
+  ("        self.lattice_params = lattice_params.copy()", "class ParseMCNPCell:\n"),
+  ("        _SEEN.update(lattice_params)\n        self.lattice_params = dict(_SEEN)", "_SEEN = {}\n\n\nclass ParseMCNPCell:\n")),
 ]
 
 
